@@ -153,6 +153,12 @@ RECIPES.update({
     'multi_channel_integrand_channels': dict(unit='drivers', name='channels', cls='multi_channel_integrand', self='multi_channel_integrand'),
 })
 
+RECIPES.update({
+    'mid_points_x': dict(name='mid_points_x'),
+    'mid_points_y': dict(name='mid_points_y'),
+    'distribution_result_parameters': dict(name='parameters', cls='distribution_result', self='distribution_result'),
+})
+
 # ---- fragments: single expressions inside the MPI drivers -----------------------------------
 _SUBP = [('size_t', 'calls'), ('int', 'rank'), ('int', 'world')]
 _DISP = [('size_t', 'calls'), ('int', 'rank'), ('int', 'world'), ('size_t', 'usage')]
@@ -196,6 +202,8 @@ _DGHOSTS = 'size_t vp_acc_calls; T vp_last_acc; const T *vp_acc_p1, *vp_acc_p2, 
 _T_USER = 'user integrand and virtual point.weight() are contract stubs returning any value of T (NaN, +-inf, +-0 included)'
 
 JOBS = [
+    dict(name='usage_enumeration', kind='native-bounded', bounded=True, cpp='usage', obligation='C10.usage',
+         what='random_number_usage<T,R>() equals the raw draws of one generate_canonical call', props=['C10', 'C04']),
     dict(name='ieee_facts', kind='lemma', source='lemmas/ieee_facts.c', real='double', thorough_reals=['float'],
          props=['C07', 'C09', 'C08', 'C17', 'C01', 'C02', 'C06'], timeout=dict(quick=240, thorough=1200)),
     dict(name='accumulate', functions=['accumulate'], entry='h_accumulate', enforce='accumulate', solvers=['cvc5', 'cadical'],
@@ -340,6 +348,12 @@ JOBS = [
                              dict(unit='drivers', cls='multi_channel_integrand'), dict(cname='vpinst_MCb', opaque=True)],
          preludes=['opaque.h'], late_preludes=['stubs_cb2.h'], globals='size_t vp_cb_calls, vp_cb_seen_n; _Bool vp_cb_ret; const void *vp_cb_arg; size_t vp_it_count, vp_it_calls; const void *vp_it_gen; size_t vp_g_done; size_t vp_chk_last_gen, vp_add_calls; const void *vp_add_result; size_t vp_state_calls, vp_setup_calls, vp_setup_arg; const void *vp_state_obj, *vp_it_state, *vp_it_result;',
          defines=['VP_ITMAX=65536', 'VP_NMAX=1048576'], props=['C12', 'C03', 'C19'], trusted=['the callback is user code: nondeterministic stub']),
+    dict(name='mid_points_x', functions=['mid_points_x', 'distribution_result_parameters', 'distribution_parameters_x_min', 'distribution_parameters_y_min', 'distribution_parameters_bin_size_x', 'distribution_parameters_bin_size_y', 'distribution_parameters_bins_x', 'distribution_parameters_bins_y'],
+         entry='h_mid_points_x', enforce='mid_points_x', af=['mid_points_x'], structs=[dict(cls='distribution_parameters', vec=True), dict(cls='mc_result', vec=True), dict(cls='distribution_result', vec=True)],
+         preludes=['opaque.h'], globals='size_t vp_g_rows;', defines=['VP_BINSMAX=1024', 'VP_PUSH_ASSUME_CAP'], props=['C11']),
+    dict(name='mid_points_y', functions=['mid_points_y', 'distribution_result_parameters', 'distribution_parameters_x_min', 'distribution_parameters_y_min', 'distribution_parameters_bin_size_x', 'distribution_parameters_bin_size_y', 'distribution_parameters_bins_x', 'distribution_parameters_bins_y'],
+         entry='h_mid_points_y', enforce='mid_points_y', af=['mid_points_y'], structs=[dict(cls='distribution_parameters', vec=True), dict(cls='mc_result', vec=True), dict(cls='distribution_result', vec=True)],
+         preludes=['opaque.h'], globals='size_t vp_g_rows;', defines=['VP_BINSMAX=1024', 'VP_PUSH_ASSUME_CAP'], props=['C11']),
     dict(name='refine_weights', functions=['multi_channel_refine_weights'], entry='h_multi_channel_refine_weights',
          enforce='multi_channel_refine_weights', replace=['vp_pow'], af=['multi_channel_refine_weights'], globals='T vp_g_s1, vp_g_s2; _Bool vp_g_nodata;',
          defines=['VP_NMAX=1048576'], props=['C08'], thorough_reals=['float'],
@@ -365,5 +379,5 @@ NATIVEJOBS = []
 
 REPLAYS = {'c16_tiling': dict(cpp='c16', link_fragments=[f for f in sorted(FRAGMENTS) if f.startswith('mpi_')]),
            'invoke_nodist': 'invoke', 'invoke_dist': 'invoke',
-           'refine_weights': 'refine_weights', 'result_formulas': 'result', 'callback_decision': 'callback', 'weighted_with_variance': 'callback', 'chkpt_rollback': 'chkpt', 'chkpt_add': 'chkpt', 'chkpt_generator': 'chkpt',
+           'usage_enumeration': 'usage', 'refine_weights': 'refine_weights', 'result_formulas': 'result', 'callback_decision': 'callback', 'weighted_with_variance': 'callback', 'chkpt_rollback': 'chkpt', 'chkpt_add': 'chkpt', 'chkpt_generator': 'chkpt',
            'discrete_ctor': 'discrete', 'discrete_call': 'discrete', 'discrete_select': 'discrete', 'partial_sum': 'discrete'}
